@@ -85,7 +85,8 @@ def gen_c10(rng, idx, tier, faults):
         pr["n_jobs"] = rng.choice([None, 1, 2, 3])
         if faults and (li > 0 or rng.random() < 0.7):
             jb = {
-                "mode": rng.choice(["reorder", "reorder", "batch", "isolate", "twice"]),
+                "mode": rng.choice(["reorder", "reorder", "batch", "isolate", "twice", "threads", "threads"]),
+                "switch": rng.choice([0.05, 0.2, 0.5, 1.0]),
                 "seed": _seed(rng),
                 "workers": rng.randint(2, 4),
                 "reorder": rng.random() < 0.7,
@@ -512,7 +513,7 @@ class RidgeScenario:
 
     def stub_components(self):
         return [
-            "joblib backend (execution order, batching, process-like isolation, at-least-once execution)",
+            "joblib backend (execution order, batching, process-like isolation, at-least-once execution, shared-memory threads with seeded line-level interleaving)",
             "ambient numpy RNG state that draws the folds when random_state=None",
             "fold observation wrappers around the module-level KFold / check_cv names",
         ]
@@ -522,5 +523,5 @@ class RidgeScenario:
             "the rank decision s > max(n,m)*eps is taken from LAPACK singular values of X and of both folds; traces with a singular value within a factor 3 of that cut are counted as out_of_domain and not judged",
             "cut-off alphas within 1e-9*s_max of a singular value are skipped (inclusion of that direction is a rounding decision)",
             "tolerances: 1e-7*scale*max(1, cond*eps*1e4) for CV values, the same relative bound for coefficients",
-            "joblib tasks are atomic (no shared-memory threads)",
+            "in the 'threads' schedule tasks are pre-empted only at line events inside skmatter code (one thread runs at a time)",
         ]
